@@ -125,7 +125,8 @@ class World:
             txs.append(t)
             self.apply(ledger, t)
         if time is None:
-            time = p["time"] + r.choice([600, 600, 600, 1, 30, 1300])
+            # timestamps need not grow along a chain: anything above the median of the last 11 is valid
+            time = p["time"] + r.choice([600, 600, 600, 1, 30, 1300, -1, -700, -1500, -3100])
             time = max(time, self.mtp(parent) + 1)
         if diff is None:
             diff = r.choice(self.diffs)
@@ -235,6 +236,11 @@ def random_history(seed, net="regtest", nblocks=14, thr=None, full=True, diffs=N
                         items.append(item(rng.choice(batch), rng.choice(BLOCK_DEFECTS)))
                     if defects and rng.random() < 0.05:
                         items.append(item(rng.choice(list(w.blocks.keys()))))      # duplicate / stale
+                    if defects and rng.random() < 0.05:
+                        # a block that is sound except for its timestamp: not above the median of the last 11
+                        par = rng.choice(batch)
+                        old = w.mine(par, ntx=0, time=w.mtp(par) - rng.choice([0, 0, 1, 77]))
+                        items.append(item(old))
                 if defects and rng.random() < 0.06:
                     rng.shuffle(items)
                 nxt = [item(b) for b in undelivered[:3]]
